@@ -22,6 +22,7 @@ def recordedClosures : List (Nat × Nat) :=
 def report : List (String × String × List String × List String) :=
   [ ("C14", "translator errors", translatorErrors, []),
     ("C14", "key or guard implements Clone/Copy/Default/Send", pr c14_keyLikeImpls, []),
+    ("C14", "hold token (a *Ref whose Drop releases, or a struct containing one) implements Clone/Copy/Default", pr c14_holdTokenImpls, []),
     ("C14", "key field not private / ThreadKey lacks the !Send marker", pr c14_keyFields, []),
     ("C14", "Keyable not sealed", c14_keyableSealing.map nm, []),
     ("C14", "safe public acquiring function without a key parameter", pr c14_acquiringWithoutKey, []),
@@ -34,13 +35,13 @@ def report : List (String × String × List String × List String) :=
     ("C15", "scoped closure argument not higher-ranked (D8)",
       pr (c15_closureLifetimes.filter fun x => !recordedClosures.contains x),
       pr (c15_closureLifetimes.filter fun x => recordedClosures.contains x)),
-    ("C15", "OwnedLockable for a non-owning type", c15_ownedLockable.map nm, []),
-    ("C15", "unchecked constructor without OwnedLockable / unsafe", pr c15_uncheckedConstructors, []),
+    ("C15,C07", "OwnedLockable for a non-owning type", c15_ownedLockable.map nm, []),
+    ("C15,C07", "unchecked constructor without OwnedLockable / unsafe", pr c15_uncheckedConstructors, []),
     ("C15", "shared access into an owned collection", pr c15_ownedSharedAccess, []),
     ("C15", "raw entry point not unsafe", c15_unsafeEntryPoints.map nm, []),
     ("C15", "Deref does not tie the reference to the guard borrow", c15_derefLifetimes.map nm, []),
-    ("C15", "try path reaches a blocking operation", c04_tryReachesBlocking.map nm, []),
-    ("C15", "non-acquiring path reaches a blocking operation", c17_nonAcqReachesBlocking.map nm, []) ]
+    ("C15,C04,C13", "try path reaches a blocking operation", c04_tryReachesBlocking.map nm, []),
+    ("C15,C17", "non-acquiring path reaches a blocking operation", c17_nonAcqReachesBlocking.map nm, []) ]
 
 def reportText : String :=
   "\n".intercalate (report.map fun (p, r, bad, known) =>
